@@ -9,7 +9,7 @@ Local Open Scope R_scope.
 Definition proper (x : rfl) : Prop := x <> FNaN.
 
 Lemma fl_eqb_refl x : proper x -> fl_eqb Rops x x = true.
-Proof. destruct x; cbn; intros H; auto. congruence. apply Reqb_true; auto. Qed.
+Proof. unfold proper; destruct x; cbn; intros H; auto; try (apply Reqb_true; reflexivity); try (exfalso; apply H; reflexivity). Qed.
 
 Lemma generic_is_zero_zero g1 g0 : proper g0 ->
   (z <- generic_zero Rops g1 g0 ;; generic_is_zero Rops g1 g0 z) = Ok true.
